@@ -24,6 +24,7 @@ RULE += (" Variables are also created with sized type strings ('f8', 'i2', ...) 
 RULE += (" Every ninth source is the object one of the library's READERS returns for a valid image written by the independent codecs (CAMx memory-mapped and record readers, bpch1, bpch2, arlpackedbit, ffi1001) - conversion to netCDF is what the readers are mostly used for; byte order and bytes-vs-str of character attributes are encodings of the container, attribute names the HDF5 layer reserves (NAME, CLASS, ...) are not representable in the netCDF-4 flavours.")
 RULE += (' Every eleventh source is a netCDF file as other tools write it, made here with netCDF4 directly: packed variables (int16 with scale_factor/add_offset, with and without _FillValue, with and without missing cells) next to a plain coordinate.')
 RULE += (' Those files also carry a variable with missing cells but no missing code of its own (netCDF default fill value), a variable with values outside its valid_range, and - for the NETCDF4 flavour - a netCDF string variable.')
+RULE += (' Packed variables of the netCDF4-written sources carry both packing attributes, add_offset only, or scale_factor only.')
 ASSUMPTIONS = [
     'classic-model flavours cannot hold int64/unsigned: such files are '
     'outside the domain there (must raise or round-trip)',
